@@ -542,6 +542,12 @@ func runC11(c *Ctx) {
 			okE := false
 			for _, ci := range ana.CallsTo(encNonce, "github.com/iotaledger/iota.go/encoding/b1t6.Encode") {
 				_, okE = ana.Match("call<*>(p0, slice(obj(alloc<[8]byte>, call<(encoding/binary.littleEndian).PutUint64>(load(global<encoding/binary.LittleEndian>), slice(self, 0, 8), p1)), 0, none))", eb.CallTermAt(ci))
+				if !okE {
+					// the same eight bytes stored by a loop, least significant first: buf[i] = byte(nonce >> 8i), i = 0..7
+					_, okL := ana.Match("call<*>(p0, slice(obj(alloc<[8]byte>, maybe(store(iaddr(self, ind<+1>(0)), conv<byte>(bin<>>>(p1, bin<*>(alt(ind<+1>(0), conv<uint>(ind<+1>(0)), conv<uint64>(ind<+1>(0))), 8)))))), 0, none))", eb.CallTermAt(ci))
+					done := plainEdges(edgesMatching(eb, "bin<>=>(ind<+1>(0), 8)"))
+					okE = okL && len(done) == 1 && mustPass(encNonce, ci.Block(), done) && len(ana.BackEdges(encNonce)) == 1
+				}
 			}
 			r.Check(okE, "C11.nonce-layout.encode-nonce", c.P.Pos(encNonce.Pos()), "nonce encoder = b1t6 of the 8 little-endian bytes (48 trits)")
 		}
